@@ -4,7 +4,7 @@
    (AsmStatements.struct_listing: same items, order, offsets, operands and sizes as AsmLayout.listing prints).
    Proofs: AsmLayoutProofs.v. *)
 From Coq Require Import ZArith List String Bool.
-From HexVerif Require Import WMap Isa AsmModel AsmLayout AsmSpec AsmStatements AsmLayoutProofs.
+From HexVerif Require Import WMap Isa AsmModel AsmLayout AsmSpec AsmStatements AsmLayoutProofs AsmListingRead AsmListingReadProofs AsmListingNamesProofs.
 Import ListNotations.
 Local Open Scope Z_scope.
 
@@ -13,6 +13,37 @@ Theorem C17_listing_agrees :
     check_listing (struct_listing (ao_layout out)) (ao_image out) = true.
 Proof. exact listing_ok. Qed.
 Print Assumptions C17_listing_agrees.
+
+
+(* The listing as TEXT.  AsmListingRead.listing_lines is the text emitProgramText prints for the model's listing triples
+   (offset, Directive::toString(), size): "%#08x %-20s (%d bytes)" per directive, then "<total> bytes".
+   AsmListingRead.read_listing is a total reader of such text (the reader the check runs, extracted, on the REAL tools'
+   listings).  Reading the printed text gives exactly the structured listing C17_listing_agrees is about -- for every
+   accepted program whose names contain no blank (what the lexer can produce). *)
+Theorem C17_text_listing_reads_back :
+  forall prog locs out, Forall wf_directive prog -> Forall name_ok prog ->
+    assemble_directives prog locs = Ok out -> small (ao_layout out) ->
+    read_listing (listing_lines (ao_listing out) (ao_total out)) = Some (struct_listing (ao_layout out)).
+Proof. exact listing_reads_back. Qed.
+Print Assumptions C17_text_listing_reads_back.
+
+(* hence: the TEXT the model prints, read by the Coq reader, passes the validator against the model's image *)
+Theorem C17_text_listing_agrees :
+  forall prog locs out, Forall wf_directive prog -> Forall name_ok prog ->
+    assemble_directives prog locs = Ok out -> small (ao_layout out) ->
+    exists ls, read_listing (listing_lines (ao_listing out) (ao_total out)) = Some ls /\ check_listing ls (ao_image out) = true.
+Proof. exact text_listing_agrees. Qed.
+Print Assumptions C17_text_listing_agrees.
+
+(* end to end from SOURCE BYTES: the lexer only makes names without blanks and the parser only well-formed directives
+   (AsmListingNamesProofs.v, AsmFrontProofs.v), so for every source the model accepts (image below 2 GiB) the printed
+   listing text reads back as the structured listing, and that listing describes the image *)
+Theorem C17_source_listing_reads_back :
+  forall src out, assemble src = Ok out -> small (ao_layout out) ->
+    read_listing (listing_lines (ao_listing out) (ao_total out)) = Some (struct_listing (ao_layout out)) /\
+    check_listing (struct_listing (ao_layout out)) (ao_image out) = true.
+Proof. exact source_listing_reads_back. Qed.
+Print Assumptions C17_source_listing_reads_back.
 
 (* non-vacuity *)
 Definition C17_example : list directive :=
@@ -30,3 +61,20 @@ Example C17_validator_refuses :
   check_listing [LInstr 0 9 2 1; LInstr 1 3 17 2; LLabel 3 0; LOpr 3 3 1; LPadding 0] [146; 225; 49; 211] = true /\
   check_listing [LInstr 0 9 1 1; LInstr 1 3 17 2; LLabel 3 0; LOpr 3 3 1; LPadding 0] [146; 225; 49; 211] = false.
 Proof. split; vm_compute; reflexivity. Qed.
+
+(* the text of the example, and what the reader makes of single real-looking lines *)
+Example C17_example_text :
+  match assemble_directives C17_example [] with
+  | Ok out => map string_of_chars (skipn 17 (listing_lines (ao_listing out) (ao_total out)))
+  | _ => []
+  end =
+      ["0x000012 over                 (0 bytes)"; "0x000012 LDAM word (6)        (1 bytes)"; "0x000013 BR over (-3)         (2 bytes)";
+       "0x000015 OPR SVC              (1 bytes)"; "0x000018 PROC word            (0 bytes)"; "0x000018 DATA -2              (4 bytes)";
+       "00000000 PADDING 0            (0 bytes)"; "26 bytes"]%string.
+Proof. vm_compute. reflexivity. Qed.
+Example C17_reader_lines :
+  read_listing_line (bytes_of_string "0x00001b BRN a_rather_long_label_name_0123 (-70000) (4 bytes)") = Some (LInstr 27 11 (-70000) 4) /\
+  read_listing_line (bytes_of_string "0x000013 BR over (-3          (2 bytes)") = None /\
+  read_listing_line (bytes_of_string "0x000013 JMP 3                (2 bytes)") = None /\
+  read_listing_line (bytes_of_string "0x00001g LDAC 3               (1 bytes)") = None.
+Proof. repeat split; vm_compute; reflexivity. Qed.
